@@ -4,3 +4,4 @@ pub mod par;
 pub mod guard;
 pub mod tok;
 pub mod reg;
+pub mod plugins;
